@@ -360,6 +360,16 @@ func (f *Func) reachTarget(
 				skip = true
 				argMap[graph.VertexID(out)] = v.Value
 			}
+
+		case *valueVertex:
+			// A named value that already holds a value -- a direct input
+			// with exactly this name, type and subtype, or the result of
+			// a conversion that already ran -- needs no path search. An
+			// exact input must never lose to a conversion chain.
+			if v.Value.IsValid() {
+				skip = true
+				argMap[graph.VertexID(out)] = v.Value
+			}
 		}
 
 		// If we're skipping because we have this value already, then
